@@ -5,6 +5,7 @@ Families
        with CHECK14=1): when the flushing call returns with avail_in == 0 and avail_out > 0 the output so far
        ends with 00 00 FF FF, decodes (guided rfc1951) exactly to segment 1 with no BFINAL, the state is
        ZSTATE_NEW_HDR; FULL: the rest of the stream decodes on its own to segment 2.
+  RUN  one-shot: input = one run of 0x00 / 0xFF through the constant-run shortcut with FULL_FLUSH, end_of_stream = 0
   AP   one-shot: isal_deflate_stateless raw + FULL_FLUSH output is byte aligned, unterminated; appending a second
        call's output gives one valid finished stream (harness C14/h_append.c)
 """
@@ -67,6 +68,16 @@ def plan(tier, ctx):
                 vecs = [vecs[(n1 * 5 + n2 * 3 + reinit) % len(vecs)]]
             for cl in vecs:
                 qs.append(append_query(n1, n2, 1, reinit, list(cl), witness=(n1 == 1 and n2 == 1), core=(n1 == 1 and n2 == 1 and reinit == 0 and list(cl) == [8, 9])))
+    # ---------------------------------------------------------------- RUN (lead): one-shot FULL_FLUSH, end_of_stream = 0 through the
+    # constant-run shortcut write_constant_compressed_stateless (harness C01/h_construn.c, FLUSHMODE): whole non-final blocks,
+    # byte aligned, decode to the input
+    from harness.C01.plan import construn
+    for n in ([40, 231] if quick else [8, 9, 40, 117, 131, 231, 258, 300]):
+        for wrap in ([0] if quick else [0, 1, 3]):
+            for rep in (0, 255):
+                q = construn(n, wrap, D.bound(n, wrap) + 16, rep, flushmode=1, witness=(n == 40 and rep == 0))
+                q.family = "RUN"
+                qs.append(q)
     seen, uq = set(), []
     for q in qs:
         if q.qid not in seen:
@@ -74,7 +85,7 @@ def plan(tier, ctx):
             uq.append(q)
     return Plan("C14", "model_checking", uq,
                 functions_encoded=["isal_deflate (flush path)", "sync_flush", "isal_deflate_int (ZSTATE_TMP_* staging)", "write_header",
-                                   "isal_deflate_finish_base", "isal_deflate_stateless + FULL_FLUSH", "write_stored_block (FULL_FLUSH history reset)",
+                                   "isal_deflate_finish_base", "isal_deflate_stateless + FULL_FLUSH", "write_constant_compressed_stateless (FULL_FLUSH, end_of_stream=0)", "write_stored_block (FULL_FLUSH history reset)",
                                    "reset_match_history"],
                 bounds={"segments": "all (n1,n2) with n1+n2 <= 3 (one-shot: <= 4 thorough), all bytes symbolic", "flush": ["SYNC_FLUSH", "FULL_FLUSH"],
                         "output chunks": [64, 9, 8, 7, 1], "wrappers": "raw, zlib, gzip (n<=2)", "table": "static (streaming); static + default (one-shot)",
